@@ -8,7 +8,7 @@ RULE = ("random request histories on tree-git and bare-git collections; after ev
         "refused / no-op / read requests or for untouched collections, `git ls-tree HEAD` = served members with blob id = sha1('blob n\\0'+served bytes), `git status "
         "--porcelain` clean for tree stores (nested collection directories excepted), `git fsck --strict` clean; distinct = distinct (backend, head commit) states")
 WEIGHTS = {"put_same": 6, "put_reser": 4, "put_change": 8, "put_revert": 4, "put_new": 9, "delete": 6, "proppatch": 3, "restart": 0.5, "put_invalid": 3, "read": 4,
-           "put_cond": 3, "delete_missing": 2, "put_uidconflict": 2, "locked_writes": 2.5, "put_reserved": 2.0, "control_dir": 3.0, "delete_col": 2.5, "mkcol_new": 2.5, "put_type_confusion": 2.0, "proppatch": 9}
+           "put_cond": 3, "delete_missing": 2, "put_uidconflict": 2, "locked_writes": 2.5, "put_reserved": 2.0, "control_dir": 3.0, "delete_col": 2.5, "mkcol_new": 2.5, "put_type_confusion": 2.0, "proppatch": 9, "git_branch_rename": 1.5}
 MON = [monitors.C09Monitor]
 
 
@@ -26,7 +26,8 @@ def check(tier, seed, t0):
               ("untouched intervals", c.get("untouched_intervals", 0), 300 * k), ("git status checks", c.get("status_checks", 0), 400 * k),
               ("fsck runs", c.get("fsck_runs", 0), 150 * k), ("restarts", c.get("restarts", 0), 2),
               ("requests below a store's control directory", c.get("op:control_dir", 0), 10 * k), ("collections made inside a bare repository's own directories", c.get("op:control_dir_bare_nested", 0), 1 * k),
-              ("properties set to the value they already had (after another property was set)", c.get("noop_property_sets", 0), 2 * k)]
+              ("properties set to the value they already had (after another property was set)", c.get("noop_property_sets", 0), 2 * k),
+              ("branches renamed with the git CLI while the server ran, followed by a write", c.get("op:git_branch_rename", 0), 3 * k)]
     return common.finish(PROP, tier, seed, "exploration", merged, failures, RULE, t0, guards=guards,
                          assumptions=["git 2.39 CLI is the independent reader of the repositories", "untracked nested collection directories are part of the default layout, not a dirty tree"])
 
